@@ -6,6 +6,11 @@ HERE = os.path.dirname(os.path.abspath(__file__))
 
 # id -> (level, technique, text, note)   (only implemented checks are listed; the rest go to not_applicable)
 CHECKS = {
+    "C08": ("model_checking",
+            "exhaustive enumeration of operator programs (every operator of Table A.1 alone and in every ordered pair) against a reference interpreter, and of all Op sequences up to length 3 (longer over shorthand-sensitive sub-alphabets) through the real serializer and parser",
+            "The parser is checked against a harness-side transcription of the operator table including current-point tracking, for all 1- and 2-operator programs; the writer/reader pair is checked on every sequence of <=3 operations of a 62-symbol alphabet (every variant, shorthand triggers) and every sequence of 4..5 (thorough 6) over three sub-alphabets, plus boundary operand values.",
+            "Trusted: the reference interpreter (transcribed from ISO 32000-1 Table A.1 and 8.5.2). Known finding: d0/d1 have no Op. Inline images are not serialisable.",
+            "§5 C08"),
     "C19": ("model_checking",
             "exhaustive enumeration of /W array shapes (groups x forms x lengths x spacings x every insertion order x DW), simple-font tables, all small code->text maps through the CMap writer, and conformant CMap texts with bounded spelling deviations, checked against map-based reference models",
             "The width table grows at both ends depending on insertion order, so every permutation of up to 4 groups is enumerated and every code near a range end is queried; the CMap writer is round-tripped for all maps of <=3 entries over boundary codes/texts; producer-written CMaps (bfchar, both bfrange forms, mixed) must read as the specification defines.",
